@@ -19,5 +19,9 @@ def check(repo, rep, tier):
     rep.run(re_.rule_numerals, cm, rep, 'C11.L1')
     rep.run(re_.rule_quote_or_class, cm, rep, 'C11.L2')
     rep.run(re_.rule_program_keys, cm, rep, 'C11.F1')
+    from .. import rules_clause as rcl
+    rep.run(rcl.rule_program_grouping, cm, rep, 'C11.F1g')
+    from .. import rules_extra as rx
+    rep.run(rx.rule_load_takes_all, em, rep, 'C11.F2')
     rep.run(rq.rule_key_templates, em, rep, 'C11.F1k')
     rep.run(re_.rule_nesting_bound, cm, rep, 'C11.N1')
